@@ -41,6 +41,8 @@ func init() {
 			py.MustNewMethod("exc_name", hostExcName, 0, "exc_name(e): class name of an exception instance"),
 			py.MustNewMethod("tick", hostTick, 0, "tick(i): side effect marker"),
 			py.MustNewMethod("tk", hostTk, 0, "tk(i, v): side effect marker i, returns v"),
+			py.MustNewMethod("libdir", hostLibdir, 0, "libdir(name): absolute path of a scenario directory"),
+			py.MustNewMethod("fs_add", hostFsAdd, 0, "fs_add(relpath): a file of the scenario appears in the file system now"),
 		},
 	})
 }
@@ -74,6 +76,26 @@ func hostTick(self py.Object, args py.Tuple) (py.Object, error) {
 	s := sessionOf(self)
 	if s != nil && s.Hook != nil {
 		s.Hook("tick", args)
+	}
+	return py.None, nil
+}
+
+// FSAdd is installed by the engine that owns the virtual file system.
+var FSAdd func(rel string)
+
+func hostLibdir(self py.Object, args py.Tuple) (py.Object, error) {
+	if len(args) != 1 {
+		return nil, py.ExceptionNewf(py.TypeError, "libdir takes one argument")
+	}
+	n, _ := args[0].(py.String)
+	return py.String("/simcwd/" + string(n)), nil
+}
+
+func hostFsAdd(self py.Object, args py.Tuple) (py.Object, error) {
+	if len(args) == 1 && FSAdd != nil {
+		if n, ok := args[0].(py.String); ok {
+			FSAdd(string(n))
+		}
 	}
 	return py.None, nil
 }
@@ -342,6 +364,7 @@ type RefProgram struct {
 	Path  []string          `json:"path,omitempty"`  // sys.path entries relative to the scenario root
 	Mode  string            `json:"mode,omitempty"`  // "" exec | "compile" (only report whether it compiles)
 	After *string           `json:"after,omitempty"` // second program run in the same namespace afterwards
+	Late  map[string]string `json:"late_files,omitempty"` // files that appear only when the program calls fs_add(path)
 }
 
 type RefResult struct {
